@@ -107,7 +107,7 @@ def live_connectors(sim):
     return out
 
 
-def cooperate(sim, deadline, peer_hold=None, close_inherited=True, bgp_id=PEER_ID):
+def cooperate(sim, deadline, peer_hold=None, close_inherited=True, bgp_id=PEER_ID, caps=None, as4=None):
     """Behave as a correct peer until the agent reports ESTABLISHED or virtual time passes
     `deadline`.  Returns the virtual time at which ESTABLISHED was reached, or None.
     Inherited live connections that are not in a clean handshake position are closed first."""
@@ -136,7 +136,7 @@ def cooperate(sim, deadline, peer_hold=None, close_inherited=True, bgp_id=PEER_I
             st = progress.get(c.id)
             agent_open = any(b[18:19] == b'\x01' for _, b in c.transport.written if len(b) >= 19)
             if st is None and agent_open:
-                r.peer_send(c, peer_open(sim, hold=peer_hold, bgp_id=bgp_id))
+                r.peer_send(c, peer_open(sim, hold=peer_hold, bgp_id=bgp_id, caps=caps, as4=as4))
                 r.settle(fire_due=True)
                 progress[c.id] = 'open-sent'
                 acted = True
